@@ -175,6 +175,8 @@ func init() {
 			ruleRingModulus(c, r, "", "enc")
 			ruleDeepCopy(c, r, "")
 			ruleOpSiblings(c, r, "")
+			ruleCounting(c, r, "", "write")
+			ruleBlockWriterHash(c, r, "")
 			ruleXZWriter(c, r, "")
 			t := getChunkTables(c, r, "")
 			ruleWriter2(c, r, t, "")
@@ -194,6 +196,9 @@ func init() {
 			ruleRawVsCompressed(c, r, "")
 			ruleBinTreeDistance(c, r, "")
 			ruleMatcherGuard(c, r, "", true)
+			ruleBudgetFresh(c, r, "")
+			ruleHashTableAlloc(c, r, "")
+			ruleRingModulus(c, r, "", "enc")
 		},
 	})
 }
